@@ -223,6 +223,18 @@ def replay(rec, case):
     if origin == "registry-independence":
         registry_independence(rec, case.get("seed", 1))
         return
+    if origin == "back-to-back":
+        from ..lib import BBAN, SchwiftyException
+        objs = [(y, by, BBAN(y, by)) for y, by in i["chain"]]
+        for y, by, ob in objs + objs[::-1] + objs:
+            try:
+                got = ob.validate_national_checksum()
+            except SchwiftyException as e:
+                got = type(e).__name__
+            if got is not True:
+                rec.fail(f"bban_level_back_to_back|{y}", "bban_level", i, True, got)
+                return
+        return
     if "bban" in i:
         if origin.startswith("bban-object"):
             check_bban_objects(rec, i["cc"], i["bban"], onat.ref(i["cc"], i["bban"], oracle().positions(i["cc"])))
@@ -342,6 +354,63 @@ def shard_listed(arg):
         rec.notes.append(f"{cc}: edge field values reached: {sorted(seen_edge)}")
     if acc == 0 or rej == 0:
         raise HarnessError(f"{cc}: accept side {acc} / reject side {rej} is empty")
+    # repeated values: two fields holding the same text (bank == branch, account beginning with the bank code ...), and BBANs
+    # made of one digit throughout - each as it comes and with the national part solved so that the reference accepts it
+    fields = [(k, tuple(v)) for k, v in sorted(pos.items()) if k in ("bank_code", "branch_code", "account_code") and v[1] > v[0]]
+    shaped = []
+    for _ in range(3 if tier == "quick" else 40):
+        b = g.bban(cc, rng, "digits")
+        for (k1, (a1, e1)) in fields:
+            for (k2, (a2, e2)) in fields:
+                if k1 >= k2:
+                    continue
+                w_ = min(e1 - a1, e2 - a2)
+                v = b[a1:a1 + w_]
+                b2 = b[:a2] + v + b[a2 + w_:]
+                if all(ch in gens._CLASS_CHARS[cl[a2 + i]] for i, ch in enumerate(v)):
+                    shaped.append(("equal-fields", b2))
+    for dgt in "123456789":
+        b = "".join(dgt if k in "nc" else "A" for k in cl)
+        shaped.append(("uniform", b))
+    for kind_, b in shaped:
+        for b_ in (b, g.natvalid_from(cc, b, rng)):
+            if b_:
+                want = check_listed(rec, cc, b_, kind_)
+                rec.case(f"shaped-{kind_}" + ("-accepted" if want else ""), (cc, b_) if want is not None else None)
+    # the same bank / branch / account under the other listed countries with the same structure, one right after the other,
+    # each with its own national part (what one country's algorithm worked out for these fields is not the other's answer)
+    from ..dims import sibling_countries
+    for _ in range(3 if tier == "quick" else 40):
+        b0 = g.natvalid_bban(cc, rng)
+        if not b0:
+            break
+        chain = [(cc, b0)]
+        for y in sibling_countries(o, cc, b0):
+            if y in onat.LISTED and not onat.missing_fields(y, o.positions(y)):
+                by = g.natvalid_from(y, b0, rng)
+                if by:
+                    chain.append((y, by))
+        if len(chain) < 2:
+            break
+        for y, by in chain + chain[::-1]:
+            want = check_listed(rec, y, by, "same-fields-sibling-country")
+            rec.case("same-fields-sibling-country", (y, by))
+        # and at the BBAN level back to back, nothing else in between: objects first, then one national check after the other
+        from ..lib import BBAN, SchwiftyException
+        try:
+            objs = [(y, by, BBAN(y, by)) for y, by in chain]
+        except SchwiftyException:
+            objs = []
+        for y, by, ob in objs + objs[::-1] + objs:
+            try:
+                got = ob.validate_national_checksum()
+            except SchwiftyException as e:
+                got = type(e).__name__
+            if got is not True:
+                rec.fail(f"bban_level_back_to_back|{y}", "bban_level",
+                         {"cc": y, "bban": by, "origin": "back-to-back", "chain": [list(x) for x in chain]}, True, got)
+                break
+            rec.classes["bban-level-back-to-back"] += 1
     # bank / branch / account fields holding the literals of the source (vlib/dims.py: literal_dictionary)
     from ._shared import literal_bbans
     for lits_, b in literal_bbans(cc, rng):
@@ -440,6 +509,6 @@ def run(ctx):
         need += [f"{cc}-accept", f"{cc}-reject"]
     from ._configs import stage as _config_stage
     _config_stage(ctx, ['national'])
-    ctx.require_classes("bban-object-own", "bban-object-foreign", "source-literals", "registry-independence", "unlisted-valid", "mutant", "sweeps", "edge-sweeps", "sibling-text", "bban-object-direct", "bban-object-from_components", *need)
+    ctx.require_classes("bban-level-back-to-back", "shaped-equal-fields", "shaped-uniform", "same-fields-sibling-country", "bban-object-own", "bban-object-foreign", "source-literals", "registry-independence", "unlisted-valid", "mutant", "sweeps", "edge-sweeps", "sibling-text", "bban-object-direct", "bban-object-from_components", *need)
     ctx.extra["per_country"] = {cc: {"accept": ctx.rec.classes.get(f"{cc}-accept", 0),
                                      "reject": ctx.rec.classes.get(f"{cc}-reject", 0)} for cc in onat.LISTED}
